@@ -68,13 +68,35 @@ def wf(R, strict_declares=True):
     return out
 
 
-OPS = ('merge', 'embed', 'mask', 'forwards', 'partial', 'modifiers')
+OPS = ('merge', 'embed', 'mask', 'forwards', 'partial', 'modifiers', 'reached-twice')
 
 
 def h_algebra(ctx, cfg):
     ops = cfg.get('ops', OPS)
     op = ops[sym.pick(len(ops), 'op')] if len(ops) > 1 else ops[0]
     arity = 1
+    if op == 'reached-twice':
+        # merge(embed(bare, embed(bare, leaf)), embed(bare, leaf)) in either order: leaf is reached at depth 2 and 1
+        spec = U.gen_sigs(1, cfg['K'])[0]
+        left_deep = sym.flip('left-deep')
+        with sym.notrace():
+            ctx.case('reached-twice %r %s' % (spec, 'deep-first' if left_deep else 'shallow-first'), nontrivial=True)
+            leaf = U.real_function(spec, 'leaf')
+            relay = U.make_function('*args, **kwargs', name='relay', cache_key=('c08relay',))
+            top1 = U.make_function('*args, **kwargs', name='top1', cache_key=('c08top1',))
+            top2 = U.make_function('*args, **kwargs', name='top2', cache_key=('c08top2',))
+        try:
+            deep = S.embed(S.signature(top1), S.signature(relay), S.signature(leaf))
+            shallow = S.embed(S.signature(top2), S.signature(leaf))
+            R = S.merge(deep, shallow) if left_deep else S.merge(shallow, deep)
+        except ValueError:
+            ctx.count('raised')
+            return
+        depths = R.sources.get('+depths', {})
+        ctx.require('minimum-depth-kept-when-reached-twice', depths.get(leaf) == 1 and depths.get(relay) == 1 and
+                    depths.get(top1) == 0 and depths.get(top2) == 0,
+                    lambda: dict(depths=dict((getattr(k, '__name__', repr(k)), v) for k, v in depths.items())))
+        return
     if op == 'merge':
         arity = 2 + (sym.flip('triple') if cfg.get('triples') else 0)
     elif op in ('embed', 'forwards'):
